@@ -136,7 +136,7 @@ for _na, _tier in ((1, "quick"), (2, "quick"), (3, "quick"), (4, "thorough"), (5
 
 
 ob("C13", "K1.wrap_templates", {"nargs": R(2, 2), "ndefaults": R(0, 2), "t": R(0, 1), "has_self": R(0, 0), "same_name": BOOL, "has_value": BOOL,
-                                "wrap": R(0, 3), "kwonly": R(0, 0), "in_method": R(0, 0), "ann": R(0, 2)}, T=600, tpath=60, funcs=FUNCS,
+                                "wrap": R(0, 3), "kwonly": R(0, 0), "in_method": R(0, 0), "ann": R(0, 2)}, enum=True, T=600, tpath=60, funcs=FUNCS,
    bound="input annotation int / Optional[int] / List[str] x wrap template none / Optional[..] / List[..] / Optional[List[Union[.., str]]] (also templates whose outer "
          "shape equals the annotation's): the target receives exactly template(annotation)")(sync)
 
@@ -179,7 +179,7 @@ def sync_attr(pos, nattr, has_value, wrap, from_param):
     return ""
 
 
-ob("C13", "K2.attr_target", {"pos": R(0, 3), "nattr": R(1, 4), "has_value": BOOL, "wrap": BOOL, "from_param": BOOL}, T=300, tpath=60,
+ob("C13", "K2.attr_target", {"pos": R(0, 3), "nattr": R(1, 4), "has_value": BOOL, "wrap": BOOL, "from_param": BOOL}, enum=True, T=300, tpath=60,
    funcs=FUNCS, bound="class with 1..4 annotated attributes and a method, ANY attribute selected; input = class attribute or function "
                       "parameter, with/without value; wrap on/off")(sync_attr)
 
@@ -247,7 +247,7 @@ def sync_eval(nvals, target_kind, nargs, ndefaults, t, has_self):
     return ""
 
 
-ob("C13", "K3.input_eval", {"nvals": R(1, 3), "target_kind": R(0, 1), "nargs": R(1, 3), "ndefaults": R(0, 3), "t": R(0, 2), "has_self": R(0, 2)},
+ob("C13", "K3.input_eval", {"nvals": R(1, 3), "target_kind": R(0, 1), "nargs": R(1, 3), "ndefaults": R(0, 3), "t": R(0, 2), "has_self": R(0, 2)}, enum=True,
    pre="t < nargs and ndefaults <= nargs", T=600, tpath=60, funcs=FUNCS + ["cdd.shared.ast_utils.it2literal"],
    assumes=["shim: eval in cdd.compound.sync_properties runs the real builtin outside the tracer (CrossHair's eval model drops the namespace of an exec-mode code object); the evaluated module is a concrete constant"],
    bound="--input-eval with a concrete constant list of 1..3 strings (eval is the explicit opt-in); target = class attribute or parameter of a function/method "
@@ -294,6 +294,6 @@ def sync_dup(kind, has_value, wrap, from_param):
     return ""
 
 
-ob("C13", "K4.duplicate_paths", {"kind": R(0, len(DUP_SRC) - 1), "has_value": BOOL, "wrap": BOOL, "from_param": BOOL}, T=300, tpath=60, funcs=FUNCS,
+ob("C13", "K4.duplicate_paths", {"kind": R(0, len(DUP_SRC) - 1), "has_value": BOOL, "wrap": BOOL, "from_param": BOOL}, enum=True, T=300, tpath=60, funcs=FUNCS,
    bound="output modules in which several nodes answer to the dotted path K.a0 (class defined in both branches of an if/else or try/except, nested namesake class, "
          "attribute annotated twice): exactly one statement of the file changes and it becomes the input property")(sync_dup)
